@@ -52,7 +52,7 @@ theorem C19_reach (fs : Fs) (inputs : List File) (hw : fs.wf inputs = true) (g :
 
 /-- what one library contributes to the resolution of an include -/
 def libMatch (i : Inc) : Lib → Option File
-  | .dir es => if i.dot then none else es.lookup i.key
+  | .dir es => es.lookup i.key        -- every written path (the exception for paths starting with `.` was a defect, repaired)
   | .file t nm => if !i.sep && nm == i.key then some t else none
 
 theorem libLookup_cons (i : Inc) (l : Lib) (r : List Lib) :
@@ -61,12 +61,9 @@ theorem libLookup_cons (i : Inc) (l : Lib) (r : List Lib) :
       | none => libLookup i r := by
   cases l with
   | dir es =>
-    show (if i.dot then libLookup i r else match es.lookup i.key with | some f => some f | none => libLookup i r) = _
+    show (match es.lookup i.key with | some f => some f | none => libLookup i r) = _
     unfold libMatch
-    cases i.dot with
-    | true => rfl
-    | false =>
-      simp only [Bool.false_eq_true, if_false]
+    rfl
   | file t nm =>
     show (if !i.sep && nm == i.key then some t else libLookup i r) = _
     show _ = match (if !i.sep && nm == i.key then some t else none) with
